@@ -1199,7 +1199,79 @@ def gen_t_edge(rng, tier):
     return None
 
 
+def gen_boundary(rng, tier):
+    """the observed total lands EXACTLY on N t (round 9): `p = 0 once the total exceeds N t` is a strict comparison at an
+    exact threshold, and algebraically equal float forms of it (S/N > t, S - N t > 0, ...) differ exactly there.
+    (a) 0/1 draws from N cards, t = K/N, the K-th one drawn last; (b) draws that are small multiples of a decimal t
+    (N = 3, t = 0.1: 0.1, 0.2).  Optionally followed by zeros (the total stays on the threshold)."""
+    for _ in range(8):
+        c = gen_case(rng, tier, "test", force_test=rng.choice(["alpha_mart", "betting_mart"]))
+        if c["stream"] == "malformed":
+            continue
+        init = c["init"]
+        init["u"], init["u_now"] = "1", None
+        init["kw"].pop("eta", None)
+        if F(init["kw"].get("lam") or 0) > 1:
+            init["kw"]["lam"] = "1/2"
+        for k_ in ("series", "int_dtype", "negzero"):
+            c.pop(k_, None)
+        if rng.chance(0.5):
+            N = rng.choice([3, 5, 6, 7, 9, 10, 11, 12, 15, 20, 25, 30, 40, 50, 60])
+            K = rng.randint(1, N - 1)
+            if rng.chance(0.6):
+                N, K = rng.choice(_OFF_PAIRS)      # the float product N * (K/N) is not K
+            n = rng.randint(K, N)
+            head = [F(1)] * (K - 1) + [F(0)] * (n - K)
+            rng.shuffle(head)
+            x = head + [F(1)]
+            t = F(K, N)
+        else:
+            N = rng.choice([3, 5, 6, 7, 9, 11, 12])
+            t = F(rng.choice([1, 2, 3, 4]), rng.choice([10, 10, 100]))
+            parts = []
+            left = N
+            while left > 0:
+                m = rng.randint(1, min(left, max(1, int(1 / t))))
+                parts.append(m); left -= m
+            rng.shuffle(parts)
+            x = [m * t for m in parts]
+            if any(v > 1 for v in x) or len(x) > N:
+                continue
+        b = len(x)
+        if len(x) < N and rng.chance(0.7):
+            x.append(F(0))
+        while len(x) < N and rng.chance(0.3):
+            x.append(F(0))
+        if len(x) > b:
+            c["cut_hint"] = b               # C05's truncation clause cuts there
+        init["N"], init["t"] = N, S(t)
+        c["x"] = [S(v) for v in x]
+        c["stream"] = "boundary:" + c["stream"]
+        return c
+    return None
+
+
+_OFF_PAIRS = [(N_, K_) for N_ in range(3, 61) for K_ in range(1, N_) if N_ * (K_ / N_) != K_]
+
+
+def _single_rounding(xd):
+    """xd: the draws as the doubles the code receives (Fractions).  True when every running float total but the last
+    is exact, so that the float total of all of them is the exact total rounded ONCE (and float comparisons with
+    another once-rounded quantity are monotone in the exact values)"""
+    s = 0.0
+    e = F(0)
+    for v in xd[:-1]:
+        s = s + float(v)
+        e += v
+        if F(s) != e:
+            return False
+    return True
+
+
 def gen_extra(rng, tier):
+    r = rng.random()
+    if r < 0.12:
+        return gen_boundary(rng, tier)
     r = rng.random()
     if r < 0.05:
         return gen_long(rng, tier)
@@ -1496,6 +1568,28 @@ def oracle_c12(case, ir):
             if abs(ir["hist"][j] - float(want)) > 1e-7 * max(1.0, float(want)):
                 return {"what": f"{test}: history[{j}] = {ir['hist'][j]!r} but min(1, 1/T_j) = {float(want)!r} "
                                 f"with T_j the defining product (mu_j={float(m)}, parameter={float(pj)})"}
+        if N is not None and test in ("alpha_mart", "betting_mart") and not dead and not exact_inputs(case) and \
+                abs(sum(x) - N * t) < F(1, 10 ** 9) and not case.get("int_dtype") and \
+                (len(x) < 2 or (ir["hist"][-2] == ir["hist"][-2] and ir["hist"][-2] > 1e-100)):
+            # the total is within rounding distance of N t.  (i) decidable all the same when the float total is the
+            # exact total of the doubles rounded once; (ii) whatever the verdict, it is a function of (x, N, t) alone:
+            # the ALPHA and the betting form of the real code must agree on it (C12: identical p-values)
+            xd_ = [F(float(v)) for v in x]
+            fired = ir["hist"][-1] == 0.0
+            if fired and _single_rounding(xd_) and sum(xd_) <= N * F(float(t)):
+                return {"what": f"{test}: the draws total exactly {float(sum(xd_))!r} (as the doubles handed over), N t is "
+                                f"exactly {float(N * F(float(t)))!r}: the total does not exceed N t, yet the last p-value is 0"}
+            other = "betting_mart" if test == "alpha_mart" else "alpha_mart"
+            sib = {"test": other, "estim": None, "bet": None, "u": init["u"], "u_now": init.get("u_now"), "N": N,
+                   "t": init["t"], "ro": init["ro"], "kw": {}}
+            r2 = impl_call(lambda: make_nm(sib).test(np.array([float(v) for v in x])))
+            if not isinstance(r2, dict):
+                h2 = flo(r2[1])
+                if (len(h2) < 2 or (h2[-2] == h2[-2] and h2[-2] > 1e-100)) and h2[-1] == h2[-1] and (h2[-1] == 0.0) != fired:
+                    return {"what": f"total {float(sum(x))!r} against N t = {float(N * t)!r}: {test} "
+                                    f"{'sets' if fired else 'does not set'} the last p-value to 0 (history[-1] = {ir['hist'][-1]!r}) "
+                                    f"but {other} on the same sample {'does' if h2[-1] == 0.0 else 'does not'} "
+                                    f"(history[-1] = {h2[-1]!r}): 'the total exceeds N t' is decided differently by the two forms"}
         if N is not None and sum(x) > N * t and test in ("alpha_mart", "betting_mart") and \
                 (exact_inputs(case) or abs(sum(x) - N * t) >= F(1, 10 ** 9)):
             if ir["hist"][-1] != 0.0 or (init["ro"] and ir["p"] != 0.0):
@@ -1723,7 +1817,10 @@ def oracle_c05(case, ir):
     key = sum(int(v * 64) for v in x) + n
     test = init["test"] or "alpha_mart"
     hist = ir["hist"]
-    for k in _c05_cuts(n, key):
+    cuts = _c05_cuts(n, key)
+    if isinstance(case.get("cut_hint"), int) and 1 <= case["cut_hint"] <= n - 1:
+        cuts = sorted(set(cuts) | {case["cut_hint"]})
+    for k in cuts:
         # common head, different continuation: first k entries agree
         for name, alt in _c05_tails(x, k, u, key, N):
             y = x[:k] + alt
@@ -1750,7 +1847,12 @@ def oracle_c05(case, ir):
             return {"what": f"truncating to {k} observations raised history[{k - 1}]: {h3[k - 1]!r} > {hist[k - 1]!r}", "cut": k}
         head = sum(x[:k])
         clamp_possible = test in ("alpha_mart", "betting_mart") and N is not None
-        if not clamp_possible or head < N * t - F(1, 10 ** 9):
+        xd_ = [F(float(v)) for v in x[:k]]
+        # within rounding distance of the threshold the verdict is still decidable when the float total is the exact
+        # total (of the doubles handed over) rounded once: it cannot exceed the once-rounded N t unless it does exactly
+        on_or_below = clamp_possible and abs(head - N * t) <= F(1, 10 ** 9) and _single_rounding(xd_) and \
+            sum(xd_) <= N * F(float(t)) and not case.get("int_dtype")
+        if not clamp_possible or head < N * t - F(1, 10 ** 9) or on_or_below:
             if not _c05_close(h3[k - 1], hist[k - 1]):
                 return {"what": f"truncating to {k} observations changed history[{k - 1}] although the observed total "
                                 f"{float(head)} does not exceed N t: {h3[k - 1]!r} vs {hist[k - 1]!r}", "cut": k}
